@@ -154,12 +154,32 @@ func (ff *FindingsFile) match(prop, sig string) *Finding {
 			continue
 		}
 		for _, s := range f.Sigs {
-			if s == sig {
+			if globMatch(s, sig) {
 				return f
 			}
 		}
 	}
 	return nil
+}
+
+// globMatch matches sig against a pattern in which '*' stands for any substring.
+func globMatch(pat, sig string) bool {
+	parts := strings.Split(pat, "*")
+	if len(parts) == 1 {
+		return pat == sig
+	}
+	if !strings.HasPrefix(sig, parts[0]) {
+		return false
+	}
+	sig = sig[len(parts[0]):]
+	for i := 1; i < len(parts)-1; i++ {
+		j := strings.Index(sig, parts[i])
+		if j < 0 {
+			return false
+		}
+		sig = sig[j+len(parts[i]):]
+	}
+	return strings.HasSuffix(sig, parts[len(parts)-1])
 }
 
 // ---------------------------------------------------------------- coordinator
